@@ -10,6 +10,28 @@ SOLO_TECH = ("TLA+ single-handler adversarial model (Solo.tla over the SrcCore /
              "TLC invariant of every input sequence up to the depth bound; TLC-enumerated sequences replayed into the real "
              "handler; recorded executions validated against the transducers and judged by the same TLA+ monitor")
 CLAIMED = {
+    "C13": dict(
+        text="The C13 monitor - an observer that follows the check timer from the clock (start at the EOF that found data outstanding, "
+             "restart at every expiry): no Transaction-Finished at that EOF; at an expiry the transfer completes successfully iff "
+             "the file matches the EOF checksum (bit-serial TLA+ CRC over the sandbox file), otherwise Check Limit Reached is "
+             "declared exactly at the limit-th expiry, never earlier, and an incomplete file is never reported successful; sender "
+             "with closure: Check Limit Reached at the first call after its check timer expired, not before - is a TLC invariant of "
+             "every sequence of Metadata / segments in any order and subset / EOF anywhere / ticks / polls for check limits 1-3, and "
+             "is evaluated on those sequences, on reordering schedules of the closed model and on random runs executed on the real "
+             "handlers with the virtual clock.",
+        ref="DESIGN.md section 6 C13", tech=SOLO_TECH,
+        note="Trusted: TLC; harness projection; virtual clock = spacepackets.countdown.time_ms replaced by the harness."),
+    "C14": dict(
+        text="The C14 monitor (callback kind = the table's code for that condition, one callback per fault, transaction id of the "
+             "PDUs; ignore: transaction continues; cancel: EOF(cancel) with the condition at the sender / Transaction-Finished or "
+             "Finished PDU with it at the receiver; abandon: idle, nothing raised; no indication without transaction id; "
+             "set_handler refuses exactly the conditions outside the table) is a TLC invariant of every input sequence on both "
+             "sides under tables from {ignore, cancel, abandon}^conditions with inputs reaching every declaration site, and is "
+             "evaluated on those sequences, on faulty / silent-peer two-entity schedules under random tables and on random "
+             "adversarial runs executed on the real handlers; the configuration API is enumerated over every condition code.",
+        ref="DESIGN.md section 6 C14", tech=SOLO_TECH,
+        note="Trusted: TLC; the recording fault handler of the harness. Faults during a cancellation in progress abandon by design "
+             "(exempt from the 'configured code decides' clause)."),
     "C12": dict(
         text="The C12 monitor (cancel returns true iff busy, transaction id present and equal; after a sender cancel the next PDU is "
              "EOF(Cancel Request Received) with size = bytes sent and the bit-serial TLA+ checksum of that prefix and no new file "
